@@ -1,6 +1,6 @@
 SPECIFICATION Spec
 CONSTANTS
   Depth = 2
-  Positions = {1, 3}
+  Positions = {1, 2, 3}
 INVARIANTS DenotationPreserved NormalisedDeclarationPreserved Emit
 CHECK_DEADLOCK FALSE
